@@ -14,7 +14,9 @@ INFO = {
                    "jaxpr to the new filter leaves and their new optimiser moments; the slice is executed symbolically with the filter bank "
                    "itself, the step count and the hyper-parameter constants symbolic, and z3 decides F'_i F_0 = F'_0 F_i (common rescaling; "
                    "F' = F for sgd/adam) and new filter moments = 0.  The slice's input set (read from the jaxpr) must not contain data, other "
-                   "parameters or their moments - i.e. d loss / d F == 0.  (c) A witness is replayed by running the real train_step on floats.",
+                   "parameters or their moments - i.e. d loss / d F == 0.  (c) For each trained model class the post-step model - arbitrary free parameters, filter bank abstracted to its sign/magnitude pattern, "
+                   "which any common rescaling preserves - is proved equivariant with the whole-network machinery of C07.  (d) A witness is replayed by "
+                   "running the real train_step on floats.",
     "functions": ["ml.train_step", "eqx.filter_value_and_grad", "eqx.filter_pmap body (shard_map)", "optax.sgd / adam / adamw update", "eqx.apply_updates",
                   "ml.ConvContract.individual_convolve (stop_gradient on the bank)", "ml.smse_loss"],
     "bounds": {
@@ -41,6 +43,8 @@ def cells(tier, seed):
                 if tier == "quick" and m in ("resnet", "unet") and count == 7 and o in ("sgd", "momentum"):
                     continue
                 out.append({"model": m, "opt": o, "count": count})
+    for m in models_:
+        out.append({"kind": "equiv", "model": m, "opt": "-", "count": -1})
     return out
 
 
@@ -93,6 +97,15 @@ FREE_PATTERNS = (".weights", ".bias", ".scale", ".vanilla_norm", ".nonlinearity"
 
 
 def run_cell(cfg, cx):
+    if cfg.get("kind") == "equiv":
+        # the post-training model: arbitrary free parameters, filter bank = any array with the bank's sign/magnitude pattern
+        # (in particular any common rescaling of it) -> equivariant; same machinery as C07, on the models trained here
+        from props import C07
+        m, D, in_sig, out_sig = _model(cfg["model"])
+        c7 = {"cls": "c09:" + cfg["model"], "depth": 1, "act": "-", "norm": "-", "pre": "-", "bias": "-", "sig": "-", "torus": True, "D": D,
+              "N": 4, "down": 1, "gs": "generators"}
+        C07.run_cell(c7, cx, prebuilt=(m, in_sig, out_sig))
+        return
     import jax
     import jax.numpy as jnp
     import equinox as eqx
